@@ -16,6 +16,11 @@ import BearVerif.Core.Bear
                                                         `Callable` or `Callable[…]`, checked by isinstance only)
     beartype/_util/hint/pep/proposal/pep484/pep484604union.py  make_hint_pep484604_union
 
+  Modelled is the code WITH the repairs proposed in /verif/fixes/C20_*.patch: `Counter[K]` only when
+  every inferred value hint is `int` (`subscript2`), the hint factory of the nearest builtin
+  superclass for unsubscriptable C subclasses such as `odict_keys` (`builtinFactory`); the FSM
+  (whose `Set` node the third repair corrects) is extracted from the source, whatever it says.
+
   The inferred hint is a `Bear.Hint`; its meaning is `Bear.sat` (Core/Bear.lean). Objects are
   `Bear.Obj` trees (finite, hence non-recursive); self-referential containers are modelled on a
   heap with addresses (`Heap`, `unfoldGuard`), where the id-set guard is a real termination argument.
